@@ -5,43 +5,43 @@ TECH_SMT = TECH + '; plus z3 (QF_BV) queries over the operator table translated 
 
 CLAIMED = {
     'C01': dict(
-        text='Bounded panic-freedom of the integer-handling kernels behind the grammars (substring clamp, brace sequences, PEG number actions, integer-attribute append, array key arithmetic, arithmetic operator tables, pow, loop-level decrement, radix literals) and the recursion-depth guard of arithmetic variable dereference (subscripts evaluated at the caller\'s depth, contents at depth+1, the limit is an error - so self-referential variables end in a diagnostic, not a stack overflow): CBMC decides Kani\'s implicit overflow / bounds / unwrap obligations for every i64 / byte value inside the stated shapes. Not the whole statement: tokenizer, PEG grammars and string paths are outside (DESIGN 4/C01).',
+        text='Bounded panic-freedom of the integer-handling kernels behind the grammars (substring clamp, brace sequences, PEG number actions, integer-attribute append, array key arithmetic, arithmetic operator tables, pow, loop-level decrement, radix literals) and the recursion-depth guard of arithmetic variable dereference (subscripts evaluated at the caller\'s depth, contents at depth+1, the limit is an error - so self-referential variables end in a diagnostic, not a stack overflow); an alias in command position that expands to nothing; the listing count of `history N`; a background job or a `wait` tripping over a job that ended in an error: CBMC decides Kani\'s implicit overflow / bounds / unwrap obligations for every i64 / byte value inside the stated shapes. Not the whole statement: tokenizer, PEG grammars and string paths are outside (DESIGN 4/C01).',
         note='Trusted: rustc, Kani, CBMC, cadical; tracing stub crate; lifting recipes (a stale recipe yields inconclusive, never a violation). Strings and containers have concrete shapes.',
         ref='4/C01'),
     'C02': dict(
-        text='Per-construct contracts of the AST interpreter: de-async transplants of the real bodies of AndOrList / CompoundList / if / while-until / for / arithmetic-for / case / pipeline / function-call execute, with children replaced by oracles returning arbitrary (status, control-flow) results; the solver decides which children run, in which order, and the resulting (status, flow, $?) against reference rules from POSIX/bash for all child outcomes within the shapes. Composition to nested programs follows by structural induction (DESIGN 3.2).',
-        note='Outside: leaf command dispatch, the break/continue/return/exit builtins, eval/source, the parser. Reference rules are mine (cross-checked with bash on a smoke list).',
+        text='Per-construct contracts of the AST interpreter: de-async transplants of the real bodies of AndOrList / CompoundList / if / while-until / for / arithmetic-for / case / pipeline / function-call execute, with children replaced by oracles returning arbitrary (status, control-flow) results; the solver decides which children run, in which order, and the resulting (status, flow, $?) against reference rules from POSIX/bash for all child outcomes within the shapes; the bodies of the break / continue / return / exit builtins from the parsed argument on; exit / return / break requests passing through a pipeline (`!` does not invert them, a stage that ran in its own subshell keeps them to itself); a failing redirection on a compound command completes it with status 1. Composition to nested programs follows by structural induction (DESIGN 3.2).',
+        note='Outside: leaf command dispatch, eval/source, the parser, the argument parsers (clap) of the builtins. Reference rules are mine (cross-checked with bash on a smoke list).',
         ref='4/C02'),
     'C03': dict(
-        text='Exemption-flag contracts: every child in condition position / non-final and-or operand / under `!` is handed suppress_errexit=true, every other child exactly its parent\'s flag; errexit is applied once per pipeline iff enabled and not suppressed; pipefail/PIPESTATUS fold; nounset decision table and flag propagation through direct and indirect lookups; the exemption flag and the errexit option handed to a command substitution. Decided for all child outcomes and flag values within the shapes.',
-        note='Outside: what runs inside a command substitution after the flags are handed over, option toggling through `set`, errtrace, which expansions count as unset.',
+        text='Exemption-flag contracts: every child in condition position / non-final and-or operand / under `!` is handed suppress_errexit=true, every other child exactly its parent\'s flag; errexit is applied once per pipeline iff enabled and not suppressed; pipefail/PIPESTATUS fold; nounset decision table and flag propagation through direct and indirect lookups; the exemption flag and the errexit option handed to a command substitution; the errexit option is read when the pipeline ends (the command may switch it); every parameter lookup that finds no value ends in the nounset decision; an operand word that is not used is never expanded. Decided for all child outcomes and flag values within the shapes.',
+        note='Outside: what runs inside a command substitution after the flags are handed over, option toggling through `set`, errtrace, special parameters, `${#a[@]}` / arithmetic on unset names.',
         ref='4/C03'),
     'C06': dict(
         text='Index arithmetic of ${v:o:l} for every i64 offset/length (callee precondition 0<=start<=end<=len), shortest/longest prefix/suffix search against an oracle regex engine (all 2^8 match tables on concrete subjects), the set/unset/null decision table of :- := :+ :?. Not the whole statement (operator recognition, slicing of contents, ${v/p/r}, case modification are outside).',
         note='fancy-regex is replaced by an oracle whose is_match answers from a symbolic table indexed by candidate length; subjects are concrete strings of <= 3 characters.',
         ref='4/C06'),
     'C07': dict(
-        text='Evaluation kernels against two\'s-complement C semantics for every pair of i64 operands: the lifted operator table of apply_binary_op, unary and increment tables, short-circuit prefix, wrapping_pow_u64 (bounded exponent), parse_shell_literal_number on 2 symbolic bytes x symbolic radix, integer-attribute append arithmetic, the dispatch contract of eval_expr_impl (x op= e reads x before evaluating e; ?: evaluates only the selected branch) and the recursion-depth discipline. Precedence, associativity and the literal->operator mapping of the PEG precedence! table are decided by z3: for every operator, every ordered pair of binary operators, prefix x binary and ?: x binary, brush\'s value of the two-operator expression equals C\'s for all operand values in range (499 queries).',
+        text='Evaluation kernels against two\'s-complement C semantics for every pair of i64 operands: the lifted operator table of apply_binary_op, unary and increment tables, short-circuit prefix, wrapping_pow_u64 (bounded exponent), parse_shell_literal_number on 2 symbolic bytes x symbolic radix, hex / octal / decimal constants of any value (wrap modulo 2^64 like bash), the subscript of a read-modify-write target evaluated exactly once, integer-attribute append arithmetic, the dispatch contract of eval_expr_impl (x op= e reads x before evaluating e; ?: evaluates only the selected branch) and the recursion-depth discipline. Precedence, associativity and the literal->operator mapping of the PEG precedence! table are decided by z3: for every operator, every ordered pair of binary operators, prefix x binary and ?: x binary, brush\'s value of the two-operator expression equals C\'s for all operand values in range (499 queries).',
         note='For * / % the reference uses the same wrapping primitive (64-bit divider equivalence does not finish); assertion is on guards and operand order.',
         ref='4/C07'),
     'C09': dict(
-        text='Scope-stack discipline of env.rs (re-instantiated over a 2-slot map and a light variable stand-in) and readonly discipline / assignment-kind table of variables.rs (re-instantiated over a counting array map): for symbolic presence / readonly / exported flags and symbolic choice of operation, lookups, shadowing, pop restoration and readonly rejection with zero container mutations are decided by the solver; the temporary-assignment protocol of execute_command (one Command scope, assignments inside it, popped on every path incl. a failing assignment) and the post_execute hook running exactly once on every dispatch path of a simple command.',
+        text='Scope-stack discipline of env.rs (re-instantiated over a 2-slot map and a light variable stand-in) and readonly discipline / assignment-kind table of variables.rs (re-instantiated over a counting array map): for symbolic presence / readonly / exported flags and symbolic choice of operation, lookups, shadowing, pop restoration and readonly rejection with zero container mutations are decided by the solver; the temporary-assignment protocol of execute_command (one Command scope, assignments inside it, popped on every path incl. a failing assignment) and the post_execute hook running exactly once on every dispatch path of a simple command; what child processes are given for a name with two bindings (the innermost exported binding that has a value), a new local taking over the export attribute of what it shadows, and a readonly global that cannot be shadowed by a local or a temporary assignment; the attribute flags of declare / local.',
         note='The std HashMap/BTreeMap contract is assumed by the array-backed stand-ins; builtins that call these APIs are outside.',
         ref='4/C09'),
     'C10': dict(
-        text='Open-mode and descriptor-number selection of setup_redirect for all 7 redirection kinds x noclobber x target-exists x explicit fd 0..9|absent, against the POSIX 2.7 / bash table, with OpenOptions bound to a duck-typed flag recorder. Everything that makes a redirection happen (open/dup/close, ordering, restoration, here-documents) is outside.',
+        text='Open-mode and descriptor-number selection of setup_redirect for all 7 redirection kinds x noclobber x target-exists x explicit fd 0..9|absent, against the POSIX 2.7 / bash table, with OpenOptions bound to a duck-typed flag recorder; the noclobber test probes the file the redirection opens; descriptor duplication, closing and moving (N>&M, N>&-, N>&M-) on a 10-slot table; items of a simple command strictly left to right; redirections of a compound command (a failing one gives status 1); here-document expansion decided by the opening tag; an external command finds on descriptors 0-2 the open files the shell has there. What a descriptor is connected to (kernel), restoration by ownership, here-document bodies and the tokenizer are outside.',
         note='Path::is_file is a symbolic boolean; the real Shell supplies the noclobber option.',
         ref='4/C10'),
     'C11': dict(
-        text='Pipeline wiring and start-before-wait protocol: transplant of spawn_pipeline_processes with pipe creation and stage launch as oracles (descriptors are tokens): N-1 pipes, stage k stdout -> stage k+1 stdin, one writer and one reader per pipe, only the last stage may run in the parent shell, no writer run to completion before its reader starts (known finding D15); command substitution: program started, output drained to EOF before the join, status recorded once. Data flow, liveness under pipe capacity and SIGPIPE are outside.',
+        text='Pipeline wiring and start-before-wait protocol: transplant of spawn_pipeline_processes with pipe creation and stage launch as oracles (descriptors are tokens): N-1 pipes, stage k stdout -> stage k+1 stdin, one writer and one reader per pipe, only the last stage may run in the parent shell, no writer run to completion before its reader starts (known finding D15); command substitution: program started, output drained to EOF before the join, status recorded once, the drained text independent of read boundaries; `read` stops exactly at the first unescaped delimiter; PIPESTATUS / pipefail fold, PIPESTATUS of grouping commands; a substitution\'s status is seen even when equal to the previous one. Liveness under pipe capacity, scheduling and SIGPIPE are outside.',
         note='Fully duck-typed environment; 2-4 stages.',
         ref='4/C11'),
     'C16': dict(
-        text='Trap protocol, one inductive step: transplants of invoke_trap_handler / on_exit / run_dash_c_command / run_script on a real Shell with the handler run, lookup and re-entrancy state as symbolic oracles: handler runs at most once strictly between enter and leave on every path, $? is restored, nothing runs if already active; one nested ERR-inside-EXIT step restores the terminating status; run_parsed_result never returns Err; on_exit is reached exactly once, after the program and with its status, on every path of the -c and script front-ends.',
-        note='Binary-side front-ends (brush-shell entry.rs, interactive_shell.rs), `exit` inside handlers, exec, signal traps are outside.',
+        text='Trap protocol, one inductive step: transplants of invoke_trap_handler / on_exit / run_dash_c_command / run_script on a real Shell with the handler run, lookup and re-entrancy state as symbolic oracles: handler runs at most once strictly between enter and leave on every path, $? is restored, nothing runs if already active; one nested ERR-inside-EXIT step restores the terminating status; run_parsed_result never returns Err; on_exit is reached exactly once, after the program and with its status, on every path of the -c, script and stdin / interactive front-ends; `exit` inside an ERR handler ends the shell, exit / return requests are not inverted by `!` (known finding D28: they still fire the ERR trap); the trap-delivery block taken around completion functions is released on every way out.',
+        note='brush-shell entry.rs argument handling, `exit` inside the EXIT handler, exec, signal traps are outside.',
         ref='4/C16'),
     'C17': dict(
-        text='Job-table bookkeeping as one inductive step from an arbitrary valid table (<= 3 live jobs, symbolic ids): add_as_current yields an id distinct from every live id (confirmed at history level: add, add, add, poll with symbolic completions, add from the empty table); transplants of wait_all / Job::wait / sweep / poll on a duck-typed table: wait_all returns only after every task of every job was awaited to completion, finished jobs reported once and removed, stopped jobs kept.',
+        text='Job-table bookkeeping as one inductive step from an arbitrary valid table (<= 3 live jobs, symbolic ids): add_as_current yields an id distinct from every live id (confirmed at history level: add, add, add, poll with symbolic completions, add from the empty table); transplants of wait_all / Job::wait / sweep / poll on a duck-typed table: wait_all returns only after every task of every job was awaited to completion, finished jobs reported once and removed, stopped jobs kept; a job that ended in an error neither cuts `wait` short nor is awaited twice; an entry waited for individually keeps its job number until swept; a background list reports its own fatal error and never hands it to `wait`.',
         note='That awaiting a task implies its effects are visible is a tokio/kernel property and outside; so are output ordering and the builtins.',
         ref='4/C17'),
     'C18': dict(
@@ -49,14 +49,14 @@ CLAIMED = {
         note='Descriptors, zombies and Arc handle lifetimes are kernel/runtime state and outside.',
         ref='4/C18'),
     'C20': dict(
-        text='Save protocol of History::flush: block lift of the body with the file system and containers bound to duck-typed recorders, over all sequences of <= 3 saves with symbolic (append, unsaved_only) and symbolic dirty flags: no item is written twice within a truncation epoch, order preserved, a save following a save adds nothing (known finding D14 for a full write followed by an append save); with a write fault at a symbolic point an item is marked saved only after its line reached the file, so the next save completes the job.',
-        note='The real rpds containers, import, add/remove and multi-session interleavings are outside.',
+        text='Save protocol of History::flush: block lift of the body with the file system and containers bound to duck-typed recorders, over all sequences of <= 3 saves with symbolic (append, unsaved_only) and symbolic dirty flags: no item is written twice within a truncation epoch, order preserved, a save following a save adds nothing (known finding D14 for a full write followed by an append save); with a write fault at a symbolic point an item is marked saved only after its line reached the file, so the next save completes the job; reload (History::import): items are the command lines in order, all marked saved, a timestamp consumed by exactly the next command; the listing count of `history N`.',
+        note='The real rpds containers, add/remove, HISTCONTROL-style policies and multi-session interleavings are outside.',
         ref='4/C20'),
 }
 
 CLAIMED['C19'] = dict(
-    text='Tiling logic of the highlighter under the parsers\' offset contract: transplants of append_span / skip_ahead / highlight_word_piece / the token loop body / highlight_program on a duck-typed highlighter whose span list checks the invariant incrementally. One inductive step per word-piece kind (11 kinds, nested quoted sequences and command substitutions via the induction hypothesis) and per token, plus the frame of highlight_program: for every token / piece layout with in-order, in-range offsets the spans are ordered, contiguous, non-empty and end exactly at the end of the line. Whole-line runs with 0-2 tokens compose the steps through the word-piece contract.',
-    note='Outside: the offsets the tokenizer and word::parse actually produce (PEG / tokenizer: not encodable), multi-byte text (character vs byte offsets come from the tokenizer), termination of the parsers. Lines are ASCII stand-ins.',
+    text='The tiling invariant of the highlighter as one inductive step with NO assumption on the parsers: the lifted append_span + floor_char_boundary keep "spans start where the previous one ended, are non-empty, lie inside the line, have both ends on character boundaries; the cursor never moves back" for every range over all of usize (reversed, behind the cursor, past the end, inside a character) on lines of 0..8 bytes with a symbolic character-boundary bitmap (multi-byte text); highlight_word_piece (11 piece kinds) and the token loop body preserve it for arbitrary offsets; highlight_command end to end (tokens anywhere: out of order, overlapping, out of range; tokenizer / word-parse errors) hands back spans that tile [0, len) exactly.',
+    note='Outside: panics or non-termination inside the tokenizer and word::parse themselves (strings, PEG), which colour a range gets. Whole-line harnesses use append_span through the post-condition proved by the step harness.',
     ref='9')
 
 NOT_APPLICABLE = {
